@@ -22,6 +22,28 @@ theorem log_delChildren (c : Cfg) (hφ : c.φ = noFaults) (fuel : Nat) (s : Fore
     (exec c fuel (.delChildren n) s).log = (Spec.delChildren s n).log :=
   (C02.delChildren_eq_spec c hφ fuel s n h hfuel).2.2
 
+/-- the complete hook log of a successful `n.children = xs`: `_pre_detach_children(old)`, the
+detach pair of every former child in order, `_post_detach_children(old)`, `_pre_attach_children(xs)`,
+for every `x` in order its detach pair (if it still has a parent) and its attach pair,
+`_post_attach_children(xs)` — snapshots included -/
+theorem log_setChildren (c : Cfg) (hφ : c.φ = noFaults) (fuel : Nat) (s : Forest) (n : Nat)
+    (xs : List Nat) (h : Inv s) (hfuel : s.n + 2 < fuel) (hn : n < s.n) (hnd : xs.Nodup)
+    (hlt : ∀ x ∈ xs, x < s.n) (hok : ∀ x ∈ xs, x ≠ n ∧ Spec.isAnc s x n = false) :
+    (exec c fuel (.setChildren n (some (xs.map Arg.node))) s).log =
+      (Spec.delChildren s n).log ++ [Spec.ev .preAttachChildren n xs (Spec.delChildren s n).f] ++
+        (Spec.attachAll (Spec.delChildren s n).f n xs).2 ++
+        [Spec.ev .postAttachChildren n xs (Spec.attachAll (Spec.delChildren s n).f n xs).1] := by
+  rw [(C02.setChildren_eq_spec c hφ fuel s n xs h hfuel hn hnd hlt hok).2.2,
+    Spec.setChildren_ok c.fl s n xs hnd hok]
+
+/-- all detaches (in order) come before all attaches (in order): the kinds of the specified log -/
+theorem delChildren_log_kinds (s : Forest) (n : Nat) :
+    ∃ mid, (Spec.delChildren s n).log =
+      [Spec.ev .preDetachChildren n (s.children n) s] ++ mid ++
+      [Spec.ev .postDetachChildren n (s.children n) (Spec.detachAll s (s.children n)).1] ∧
+      mid = (Spec.detachAll s (s.children n)).2 :=
+  ⟨_, rfl, rfl⟩
+
 /-- shape of the specified log of a parent assignment that happens: `_pre_detach(old)`,
 `_post_detach(old)` if the node had a parent, then `_pre_attach(new)`, `_post_attach(new)` if it
 gets one — each exactly once, on the moving node, with the right argument -/
